@@ -22,9 +22,9 @@ CPU_CAP = {"quick": 150, "thorough": 900}      # CPU seconds per worker (nominal
 REQUIRED = ["programs", "view:serialize", "view:deserialization_schema", "view:serialization_schema", "view:graphql_output", "view:graphql_input",
             "agreement_checks", "form:field-metadata", "form:class-mapping", "form:class-mapping-partial", "form:class-sequence", "form:inheritance",
             "form:inheritance-override", "form:inheritance-base-mapping", "form:resolver-serialized", "programs_with_chain", "programs_with_before_of_attached", "programs_n5",
-            "programs_with_absent_target", "programs_presence_variant", "programs_alias", "programs_object_refs", "illformed:cycle", "nontrivial_permutations"]
+            "programs_with_absent_target", "programs_presence_variant", "programs_alias", "programs_object_refs", "illformed:cycle", "illformed_programs_observed", "nontrivial_permutations"]
 RULE = ("classes with n fields + @serialized/@resolver methods (n <= 4 exhaustive over the splits fields/methods; n = 5 sampled), each element with no order, order(v) v in {-1,0,1,999}, "
-        "order(after=x) or order(before=x) for any other element x (chains included; cycles are ill-formed: skipped and counted); the same effective ordering expressed as field metadata, "
+        "order(after=x) or order(before=x) for any other element x (chains included; cycles, self references and unknown targets have no specified position: only "nothing lost, nothing duplicated, same permutation in every view" is checked on them); the same effective ordering expressed as field metadata, "
         "as a class-level mapping overriding decoy metadata (full / one element), as a class-level sequence, and across a base/sub class pair (field metadata, base mapping inherited, "
         "sub mapping overriding base mapping); variants with a field skipped in one direction / init=False, aliased fields, targets given as Field objects. "
         "A case = (program, view); non-trivial when the expected sequence differs from declaration order or an attachment is present; distinct by hash.")
@@ -34,7 +34,7 @@ ASSUMPTIONS = [
     "serialized methods of a base class count as declared before those of its subclasses (as dataclass fields are)",
     "GraphQL object types show methods registered with @resolver; each method is registered both with @serialized and @resolver with the same order "
     "(form resolver-serialized: once, with @resolver(order=.., serialized=True))",
-    "ill-formed specs (cycles, self reference, unknown targets) are outside the quantifier",
+    "ill-formed specs (cycles, self reference, unknown targets): positions unspecified; loss / duplication / disagreement between views still checked; a refusal (exception) is accepted",
 ]
 VALUES = (-1, 0, 1, 999)
 RS_FEATS = {"kind": "method-order-ignored", "cause": "resolver-serialized-order-not-forwarded"}
@@ -245,11 +245,50 @@ def chain_features(prog, eff):
     return has_chain, has_before_of_attached
 
 
+def check_illformed(env, prog, eff, why, want_graphql, label):
+    """after/before cycles, self references and unknown targets (a cycle also arises from two legitimate class-level sequences, base
+    ["b", "a"] and sub ["a", "b"]): no position is specified, but "ordering never loses or duplicates a field" and "one and the same
+    permutation" in every view still are"""
+    harness.reset_all()
+    del _h1_events[:]
+    try:
+        ld = Loaded(prog)
+    except Exception:
+        env.count("illformed_refused_at_definition")  # refusing the specification is a legitimate answer
+        return
+    try:
+        outs = observe(prog, ld, want_graphql)
+        env.count("illformed_programs_observed")
+        wit = {"program": prog, "source": ld.source, "effective": eff, "label": label, "ill_formed": why}
+        observed = {}
+        for view, o in outs.items():
+            if o.kind != "ok":
+                env.count("illformed_refused_in_view")
+                continue
+            P = M.present(prog, view)
+            obs = o.value
+            observed[view] = obs
+            if Counter(obs) != Counter(P):
+                lost = sorted(set(P) - set(obs))
+                env.violation({"kind": "element-lost" if lost else "element-duplicated-or-foreign", "view": view, "spec": why}, {**wit, "view": view, "observed": obs, "present": P})
+        for a, b in itertools.combinations(observed, 2):
+            common = set(observed[a]) & set(observed[b])
+            sa, sb = [e for e in observed[a] if e in common], [e for e in observed[b] if e in common]
+            # elements attached (transitively) to an element absent from one of the two views float there, as in well-formed programs
+            fl = M.floating(eff, M.present(prog, a)) | M.floating(eff, M.present(prog, b))
+            sa, sb = [e for e in sa if e not in fl], [e for e in sb if e not in fl]
+            if len(set(sa)) == len(sa) and len(set(sb)) == len(sb) and sa != sb and why != "unknown-target":
+                env.violation({"kind": "views-disagree", "views": f"{a}/{b}", "spec": why}, {**wit, "observed": observed})
+    finally:
+        ld.unload()
+
+
 def check_program(env, prog, want_graphql=True, label=""):
     eff = M.effective(prog)
     why = M.ill_formed(prog, eff)
     if why:
         env.count("illformed:" + why)
+        check_illformed(env, prog, eff, why, want_graphql, label)
         return
     harness.reset_all()
     del _h1_events[:]
